@@ -251,5 +251,5 @@ CLAIM = {
              "dataset; no file is written or read.",
     "note": "Trusted: CPython ast, vsa symbolic folding, netCDF4 semantics. Not decided: numerical agreement of scores, float32 rounding.",
     "technique": "static analysis: literal/guard contradiction rule, extraction of the writer's (name, dims, dtype, value) table by symbolic "
-                 "folding, table composition, who-may-inspect (file name) = 0",
+                 "folding, table composition, exact NetCDF type of the time coordinate, who-may-inspect (file name) = 0",
 }
